@@ -2,7 +2,7 @@ From Coq Require Import List NArith Bool.
 Import ListNotations.
 Require Import MV.C09.Model MV.C09.Spec MV.C09.Exec MV.C09.Inv MV.C09.Abs MV.C09.Safety MV.C09.Render
                MV.C09.Conserve MV.C09.Sound MV.C09.Final MV.C09.Compose MV.C09.WModel MV.C09.WSpec MV.C09.WProofs.
-Require MV.C09.XExec MV.C09.XProofs.
+Require MV.C09.XExec MV.C09.XProofs MV.C09.FlushProofs.
 Open Scope N_scope.
 Require Import MV.C09.Properties.
 
@@ -97,9 +97,10 @@ Check (C09_telemetry_prefix_bypass : forall gp name,
 Print Assumptions C09_telemetry_prefix_bypass.
 Check (C09_flush_total : forall f ms, f_max f < two32 -> run_flush f ms <> None).
 Print Assumptions C09_flush_total.
-Check (C09_xspec_ok_on_model_partial : forall c,
-  (match c with XExec.XF _ _ => False | _ => True end) -> XExec.spec_ok c (XExec.run_case c) = true).
-Print Assumptions C09_xspec_ok_on_model_partial.
+Check (C09_flush_spec_ok_on_model : forall f ms, spec_flush_ok f ms (run_flush f ms) = true).
+Print Assumptions C09_flush_spec_ok_on_model.
+Check (C09_xspec_ok_on_model : forall c, XExec.spec_ok c (XExec.run_case c) = true).
+Print Assumptions C09_xspec_ok_on_model.
 Check (C09_display_refuted_before_fix : exists ops, XExec.spec_ok (XExec.XB ops) (XExec.OB (run_builder false bdefault ops)) = false).
 Print Assumptions C09_display_refuted_before_fix.
 Check (C09_framing_refuted_before_fix_drop : exists c ops, fx (c_env c) = {| fix_drop := false; fix_reject := true; fix_prefix := true |} /\
